@@ -106,6 +106,9 @@ def run_cell(cell, seed):
         x = impulse_input(cell, seed) if kind == 'impulse' else util.make_input(kind, [cell['N'], cell['C']] + sp, seed)
         ok, y = util.call_lib(mod, x)
         out.append(judge(cell, kind, x, ok, y))
+        if kind == 'randn':
+            ok, y = util.call_lib_nograd(mod, x)
+            out.append(judge(cell, 'randn under torch.no_grad()', x, ok, y))
     # filters given directly as arrays (documented alternative to the names) must give the same transform
     import dtcwt.coeffs as dc
     bt, qt = dc.biort(cell['biort']), dc.qshift(cell['qshift'])
